@@ -9,6 +9,7 @@ import HappyProofs.C02.HooksRun
 import HappyProofs.C02.Late
 import HappyProofs.C02.JudgeWait
 import HappyProofs.C02.JudgeHooks
+import HappyProofs.C02.JudgeTrace
 /-!
 # C02 — property theorems (process layer)
 
@@ -538,6 +539,15 @@ example :
                  Line.other] = some "process/hook/not-run-at-finish" ∧
     hookMonitor [Line.start 1 1, Line.finish 11 0, Line.hookRun 11 5] = some "process/hook/ran-without-being-due" := by
   decide
+
+open HappyModel.C02.Spec (Line hookMonitor delayMonitor waitMonitor) in
+-- non-vacuity of `process_trace_satisfies_c02_spec`: the one trace of the demo run (23 lines:
+-- R / S / h / F / H / c / y / w lines interleaved as written) is accepted by the three monitors
+example :
+    (c02TraceOf none 6 (demoLate.initState false)).length = 23 ∧
+    hookMonitor (c02TraceOf none 6 (demoLate.initState false)) = none ∧
+    delayMonitor (c02TraceOf none 6 (demoLate.initState false)) = none ∧
+    waitMonitor (c02TraceOf none 6 (demoLate.initState false)) = none := by decide
 
 open HappyModel.C02.Spec (Line delayMonitor waitMonitor) in
 -- the monitors are not vacuous: a resumption at the wrong instant, with a value, or without a wait is reported
